@@ -15,13 +15,14 @@ ACCEPTED SUBSET (anything else: TranslateError, exit 2, coq/gen/RRInitGen.v is p
    the triple loop building self._timeset from datetime.time(hour, minute, second, tzinfo=self._tzinfo).
  compiled statements: `x = e`, `self._attr = e`, `self._original_rule[<key>] = e`, `if/elif/else`,
    `raise ValueError(..)`, `for v in <list>: if c: raise ValueError` (-> existsb),
-   `for v in <list>: [x = e]* if c: S.add(e) [elif c: S.add(e)]* [else: S.add(e)]` (-> fold_right),
+   `for v in <list>: [if c: continue] [x = e]* if c: S.add(e) [elif c: S.add(e)]* [else: S.add(e)]` (-> fold_right),
    `L.sort()`.
  tests: `x is None` / `is not None` on an argument (three-way match INone / IOne / IMany, after which
    `isinstance(x, integer_types)` and `hasattr(x, "n")` are decided), on an attribute whose value is known
    on the current path; `isinstance(wday, integer_types)` on a byweekday member (match WInt / WObj);
    `'<key>' not in self._original_rule`; truthiness of a list / option list / set; `not`; and / or;
-   chained comparisons of integers; `len(S) == 0`; freq comparisons with the FREQ constants.
+   chained comparisons of integers; `<int> in <set>` / `not in` (memZ); `len(S) == 0`; freq comparisons with
+   the FREQ constants.
  expressions: ints, names, self._attr, dtstart.year/.month/.day/.hour/.minute/.second, dtstart.weekday(),
    (e,), tuple(e), set(e), {e}, set(), sorted(e), tuple(sorted(..)), generator `x for x in S if c`,
    [weekday(x) for x in L], [weekday(*x) for x in L], (wday.weekday, wday.n), itertools.chain(a, b),
@@ -288,6 +289,14 @@ class Tr(object):
                 if key not in env.odict:
                     fail("unknown _original_rule key %r" % key, n)
                 return "(match %s with Absent => true | _ => false end)" % env.odict[key].text
+            # `<int> in <set / list of ints>` (membership)
+            if len(n.ops) == 1 and isinstance(n.ops[0], (ast.In, ast.NotIn)):
+                a = self.expr(n.left, env)
+                b = self.expr(n.comparators[0], env)
+                if a.ty != Z or b.ty not in (L, SET):
+                    fail("membership test of %s in %s" % (a.ty, b.ty), n)
+                t = "(memZ %s %s)" % (a.text, b.text)
+                return t if isinstance(n.ops[0], ast.In) else "(negb %s)" % t
             # integer comparisons, possibly chained
             items = [n.left] + n.comparators
             vals = []
@@ -576,6 +585,12 @@ class Tr(object):
             e2.vars[var] = Val("e_" + var, WDM)
         else:
             fail("loop over %s" % src.ty, s)
+        # optional first statement `if c: continue` (the element is skipped)
+        skip = None
+        if body and isinstance(body[0], ast.If) and not body[0].orelse and len(body[0].body) == 1 and \
+                isinstance(body[0].body[0], ast.Continue):
+            skip = self.cond(body[0].test, e2)
+            k = 1
         while k < len(body) and isinstance(body[k], ast.Assign):
             a = body[k]
             if len(a.targets) != 1 or not isinstance(a.targets[0], ast.Name):
@@ -650,7 +665,10 @@ class Tr(object):
             if cur is None or cur.ty not in (SET, SETP) or cur.text != "[]":
                 fail("accumulator must be a fresh set()", s)
             inits.append("[]")
-        fn = "(fun e_%s acc => %s%s)" % (var, "".join(lets), arms(body[k], e2))
+        step = "%s%s" % ("".join(lets), arms(body[k], e2))
+        if skip is not None:
+            step = "if %s then acc else %s" % (skip, step)
+        fn = "(fun e_%s acc => %s)" % (var, step)
         init = "(" + ", ".join(inits) + ")" if len(inits) > 1 else inits[0]
         folded = "(fold_right %s %s %s)" % (fn, init, src.text)
         e3 = env.copy()
